@@ -23,7 +23,7 @@ def run(tier, seed):
             batch.add(h, T, only=only, bounds={
                 'expr_fixed_point_ok': 'five formula shapes (chains, sign / percent, IF with an empty argument, array literal, text with doubled quotes) x operator triples (first operator index = %d mod 4, others %s): exported text parses back to itself' % (t, 'from 4 x 3 representatives' if quick else 'all 12 x 12'),
                 'model_ok': 'template %d x 8 x 8 constants x 8 sheet names (hyphen, blank, apostrophe, leading digit, exclamation mark, second workbook): identical values, identical second and third export' % t,
-                'text_constant_ok': 'every text of length <= 3 over {= " a 1 blank #} held as a text cell: values and exports survive two round trips',
+                'text_constant_ok': 'every text of length <= 3 over {= " a 1 blank #}, and 7 prefixes (error literals, a reference, a logical) followed by <= 1 such character, held as a text cell: values and exports survive two round trips',
                 'constant_ok': '16 typed constants (numbers, logicals, text, blank, errors, text looking like other types)'})
         batch.run()
     finally:
